@@ -257,6 +257,30 @@ def wrappers_block(_b):
                       sx.And(*[sx.eq(rec[0][1][i], ys[i] * Pt) for i in range(3)]))
     obs += collect(eng, run, base, 'wrap')
 
+    # the gas fractions given as an array: the caller's array is not modified, and the same array used for a second
+    # calculation at another total pressure gives that calculation's partial pressures
+    eng = sx.Engine(max_paths=16)
+
+    def run_arr():
+        rec = []
+        real = G.iast_point
+        G.iast_point = lambda isos, pp, **kw: rec.append((isos, [v for v in pp], kw)) or 'RESULT'
+        try:
+            ys = [eng.real('y0', positive=True), eng.real('y1', positive=True)]
+            arr = numpy.empty(2, dtype=object)
+            arr[:] = ys
+            P1, P2 = eng.real('P1', positive=True), eng.real('P2', positive=True)
+            isos = [IsoStub(0), IsoStub(1)]
+            G.iast_point_fraction(isos, arr, P1, warningoff=True)
+            G.iast_point_fraction(isos, arr, P2, warningoff=True)
+        finally:
+            G.iast_point = real
+        eng.prove(f"{base}/wrapper.callers_fraction_array_unchanged/n=2", all(arr[i] is ys[i] for i in range(2)),
+                  extra={'replay': {'kind': 'c13.fraction_array'}, 'observed': str([str(v) for v in arr])})
+        eng.prove(f"{base}/wrapper.second_use_of_the_same_array/n=2", len(rec) == 2 and sx.And(*[sx.eq(rec[1][1][i], ys[i] * P2) for i in range(2)]),
+                  extra={'replay': {'kind': 'c13.fraction_array'}})
+    obs += collect(eng, run_arr, base, 'wrap_array')
+
     # selectivity and vapour-liquid helpers
     for fn in ('iast_binary_svp', 'iast_binary_vle'):
         base = f"{P}/pgiast.{fn}"
@@ -421,4 +445,6 @@ def run(rep):
     from pgv.replayers import c13 as R
     for res in R.real_mixtures(rep.seed, thorough=rep.tier == 'thorough'):
         rep.add_bounded(f"{P}/bounded.real_mixture/{res['name']}", res['ok'], res['detail'], replay={'kind': 'c13.real', 'name': res['name'], 'seed': rep.seed})
+    for res in R.helper_cases():
+        rep.add_bounded(f"{P}/bounded.{res['name']}", res['ok'], res['detail'], replay={'kind': 'c13.helper', 'name': res['name']})
     rep.notes.append('n = 2, 3, 4 components (the whole quantified range); values symbolic')
